@@ -1,6 +1,7 @@
 package main
 
 import (
+	"context"
 	"crypto/sha1"
 	"encoding/json"
 	"fmt"
@@ -491,6 +492,18 @@ func (V *Verifier) checkProperty(prop string, verbose bool, t0 time.Time) int {
 			rc = 2
 		}
 	}
+	// the finite-sum schemas instantiated by smt.go (T-Sigma) are proved in lean/TSigma.lean; the thorough tier re-checks them
+	var sumSchemas interface{} = "proved in /verif/lean/TSigma.lean (Lean 4.33 + Mathlib); re-checked by the thorough tier and by ./bin/govc tsigma, not in this run"
+	if V.tier == "thorough" {
+		res := runTSigma()
+		sumSchemas = res
+		if res["result"] != "pass" {
+			o := &Oblig{Name: "T-Sigma#lean-check", Fn: "finite-sum schemas", Kind: "lemma", Status: "failed", Detail: fmt.Sprint(res["output"]), Clause: "every finite-sum schema instantiated by the VC generator is a theorem (lean/TSigma.lean)"}
+			dir := V.writeReplay(prop, o)
+			fmt.Printf("BROKEN property=%s replay=%s the finite-sum schemas are not accepted by Lean: nothing proved with them can be trusted\n", prop, dir)
+			rc = 2
+		}
+	}
 	for _, bc := range boundedChecks[prop] {
 		if bc.ThoroughOnly && V.tier != "thorough" {
 			continue
@@ -531,6 +544,7 @@ func (V *Verifier) checkProperty(prop string, verbose bool, t0 time.Time) int {
 		"lemma_obligations":         len(lem),
 		"not_decided_sentences":     notDecided[prop],
 		"bounded_standins":          bounded,
+		"sum_schemas_T_Sigma":       sumSchemas,
 	}
 	ev := Evidence{PropertyID: prop, Tier: V.tier, Seed: V.seed, Level: level, Coverage: cov, Assumptions: assumptionsFor(prop), WallS: round2(time.Since(t0).Seconds()), Violations: violations}
 	evDir := "/verif/evidence"
@@ -557,13 +571,14 @@ func round2(f float64) float64 { return float64(int(f*100+0.5)) / 100 }
 func trustedBase(ext, asm map[string]bool) []string {
 	tb := []string{"go/ssa (x/tools v0.29.0) translation of the Go source", "govc symbolic executor and SMT encoding", "z3 5.1 / z3 4.8.12 / cvc5 1.0.3 (an unsat answer of any one discharges)",
 		"prelude definitions of cosmossdk.io/math LegacyDec/Int arithmetic (mathematical integers, 256/315-bit overflow panics not modelled)"}
+	tb = append(tb, "that the finite-sum instances generated by smt.go (unfolding, CONG, UPD, PW, PWU, NONNEG, ALLZERO, MONO, TAILZERO) are instances of the theorems of lean/TSigma.lean (the theorems themselves are machine-checked, not trusted)")
 	if len(ext) > 0 {
 		tb = append(tb, fmt.Sprintf("%d extern models of dependencies (listed in extern_models_used)", len(ext)))
 	}
 	for k := range asm {
 		tb = append(tb, "assumed contract: "+k)
 	}
-	sort.Strings(tb[4:])
+	sort.Strings(tb[5:])
 	return tb
 }
 
@@ -596,8 +611,17 @@ var boundedChecks = map[string][]BoundedCheck{
 		TestFile: "/verif/conformance/bidsbyprice_conformance_test.go", InPkgDir: "x/fundraising/types", Run: "TestZZConformanceBidsByPrice"}},
 	"C02": {settlementTransfers},
 	"C01": {settlementTransfers, refundsNonNegative},
-	"C04": {refundsNonNegative},
+	"C04": {refundsNonNegative, listingSums},
+	"C05": {listingSums},
+	"C06": {listingSums},
+	"C10": {listingSums},
+	"C18": {listingSums},
+	"C19": {listingSums},
 }
+
+var listingSums = BoundedCheck{Name: "keeper.GetBidsByBidder#listing-sums-per-auction", What: "trusted postcondition of Keeper.GetBidsByBidder: for every auction, the bids of the returned listing that belong to it add up to the sum over the dense bid ids 1..BidSeq of the bids stored for that bidder (order of a whole-collection Walk combined with a regrouping of finite sums, not proved)",
+	Bound:    "BOUNDED: the empty sequence, every single bid, every pair, every 11th triple and every quadruple extending every 331st triple over 24 bid shapes (3 concurrent fixed-price auctions, two sharing both denominations x 2 bidders x paying/selling denomination x amounts 1, 7 at price 0.333333333333333333), compared for 3 bidders (one without bids) x 3 auctions (about 2,900 sequences on the simulated application, stores shared by up to 200 sequences)",
+	TestFile: "/verif/conformance/listing_sums_conformance_test.go", InPkgDir: "x/fundraising/keeper", Run: "TestKeeperTestSuite/TestZZConformanceListingSumsPerAuction"}
 
 var refundsNonNegative = BoundedCheck{Name: "keeper.CalculateBatchAllocation#refunds-are-non-negative", What: "trusted postcondition of Keeper.CalculateBatchAllocation: every refund is >= 0, at most the bidder's reservation, and equal to reservation minus payment (per-bid rounding bounds combined with a regrouping of sums over the order book, not proved)",
 	Bound:    "BOUNDED: every single bid, every pair and every 7th triple of bids over 36 bid shapes (2 bidders x worth/many x prices 0.5, 0.333333333333333333, 1.7 x amounts 1, 7, 100), supplies 10/150, allowance 1000 or lowered to 5 before settlement (about 8,000 order books on the simulated application)",
@@ -718,4 +742,42 @@ func (V *Verifier) runMathModelConformance() map[string]interface{} {
 		out["result"], out["output"] = "fail", "solver: "+first
 	}
 	return out
+}
+
+// tsigmaTheorems are the finite-sum schemas of smt.go (buildQuery unfoldings, sumRelationLemmas), by the names used there.
+var tsigmaTheorems = []string{"DEF0", "DEFS", "CONG", "PW", "NONNEG", "ALLZERO", "MONO", "TAILZERO", "UPD", "PWU"}
+
+// runTSigma has Lean check /verif/lean/TSigma.lean and requires every schema to be reported as a theorem that depends on
+// the three standard axioms only (no sorryAx, no error).
+func runTSigma() map[string]interface{} {
+	t0 := time.Now()
+	file := "/verif/lean/TSigma.lean"
+	res := map[string]interface{}{"file": file, "checker": "lean 4.33.0 + Mathlib v4.33.0 (#print axioms per theorem)", "theorems": tsigmaTheorems}
+	ctx, cancel := context.WithTimeout(context.Background(), 15*time.Minute)
+	defer cancel()
+	cmd := exec.CommandContext(ctx, "lean", file)
+	cmd.Dir = "/verif/lean"
+	out, err := cmd.CombinedOutput()
+	text := string(out)
+	ok := err == nil && !strings.Contains(text, "error") && !strings.Contains(text, "sorryAx")
+	n := 0
+	for _, th := range tsigmaTheorems {
+		if strings.Contains(text, "'TSigma."+th+"' depends on axioms: [propext, Classical.choice, Quot.sound]") {
+			n++
+		} else {
+			ok = false
+		}
+	}
+	res["theorems_accepted"] = n
+	res["wall_s"] = round2(time.Since(t0).Seconds())
+	if ok {
+		res["result"] = "pass"
+	} else {
+		res["result"] = "fail"
+		if len(text) > 4000 {
+			text = text[:4000]
+		}
+		res["output"] = text + fmt.Sprint(err)
+	}
+	return res
 }
